@@ -1,6 +1,7 @@
 """C12 — SHAKE-128/256 equal FIPS 202 for every input and every call pattern."""
 import hashlib
 ID = "C12"
+SPEC_ORACLE = ['shake']   # specification definitions used by Props/C12.lean are compared with hashlib / pyspec on every run
 R = {True: 136, False: 168}
 RULE = ("scripts of calls (absorb / finalize / squeeze / squeezeblocks / absorb_once / one-shot / stream_init) on one state; "
         "every input length 0..3*rate+1, 2-splits of the input and of the output, requests longer than a block, mixed "
